@@ -271,4 +271,4 @@ def run(chk: common.Check) -> None:
         ws, k, m, i = min(disagreements, key=lambda d: len(d[0]))
         broken.append(f'correspondence K broken on {len(disagreements)} write sequences; shortest {ws!r} at write {k}: model {m!r} vs implementation {i!r}')
     if broken and not oracle_fail:
-        chk.violation('C13: ' + broken[0], {'no_longer_checks': broken}, no_input=True)
+        chk.violation('C13: ' + ' | '.join(broken[:3]), {'no_longer_checks': broken}, no_input=True)
